@@ -7010,6 +7010,131 @@ let is_pat_target t =
   (||) ((||) (is_kind KArrayPat t) (is_kind KObjectPat t))
     (is_kind (KOther ('I'::('n'::('v'::('a'::('l'::('i'::('d'::[])))))))) t)
 
+(** val hoist_target :
+    config -> node -> sp -> acc -> pstate -> (node * acc) * pstate **)
+
+let hoist_target c lhs span a p =
+  let Node (t, cs) = lhs in
+  (match t with
+   | K (k, lo, hi) ->
+     (match k with
+      | KMember ->
+        (match cs with
+         | [] -> ((lhs, a), p)
+         | obj :: l ->
+           (match l with
+            | [] -> ((lhs, a), p)
+            | prop :: l0 ->
+              (match l0 with
+               | [] ->
+                 if (||) (is_ident obj) (is_kind KThis obj)
+                 then let p0 = (obj, a) in
+                      let (obj', a1) = p0 in
+                      let Node (t0, cs0) = prop in
+                      (match t0 with
+                       | K (k0, clo, chi) ->
+                         (match k0 with
+                          | KComputed ->
+                            (match cs0 with
+                             | [] ->
+                               let p1 = (prop, a1) in
+                               let (prop', a2) = p1 in
+                               (((Node ((K (KMember, lo, hi)),
+                               (obj' :: (prop' :: [])))), a2), p)
+                             | e :: l1 ->
+                               (match l1 with
+                                | [] ->
+                                  if (||) (is_ident e) (is_lit e)
+                                  then let p1 = (prop, a1) in
+                                       let (prop', a2) = p1 in
+                                       (((Node ((K (KMember, lo, hi)),
+                                       (obj' :: (prop' :: [])))), a2), p)
+                                  else let (p1, p2) =
+                                         get_temporal c e span IKExpr a1 p
+                                       in
+                                       let (id, a2) = p1 in
+                                       let p3 = ((Node ((K (KComputed, clo,
+                                         chi)),
+                                         ((match id with
+                                           | Some i -> i
+                                           | None -> e) :: []))), a2)
+                                       in
+                                       let (prop', a3) = p3 in
+                                       (((Node ((K (KMember, lo, hi)),
+                                       (obj' :: (prop' :: [])))), a3), p2)
+                                | _ :: _ ->
+                                  let p1 = (prop, a1) in
+                                  let (prop', a2) = p1 in
+                                  (((Node ((K (KMember, lo, hi)),
+                                  (obj' :: (prop' :: [])))), a2), p)))
+                          | _ ->
+                            let p1 = (prop, a1) in
+                            let (prop', a2) = p1 in
+                            (((Node ((K (KMember, lo, hi)),
+                            (obj' :: (prop' :: [])))), a2), p))
+                       | _ ->
+                         let p1 = (prop, a1) in
+                         let (prop', a2) = p1 in
+                         (((Node ((K (KMember, lo, hi)),
+                         (obj' :: (prop' :: [])))), a2), p))
+                 else let (p0, p1) = get_temporal c obj span IKExpr a p in
+                      let (id, a1) = p0 in
+                      let p2 = ((match id with
+                                 | Some i -> i
+                                 | None -> obj), a1)
+                      in
+                      let (obj', a2) = p2 in
+                      let Node (t0, cs0) = prop in
+                      (match t0 with
+                       | K (k0, clo, chi) ->
+                         (match k0 with
+                          | KComputed ->
+                            (match cs0 with
+                             | [] ->
+                               let p3 = (prop, a2) in
+                               let (prop', a3) = p3 in
+                               (((Node ((K (KMember, lo, hi)),
+                               (obj' :: (prop' :: [])))), a3), p1)
+                             | e :: l1 ->
+                               (match l1 with
+                                | [] ->
+                                  if (||) (is_ident e) (is_lit e)
+                                  then let p3 = (prop, a2) in
+                                       let (prop', a3) = p3 in
+                                       (((Node ((K (KMember, lo, hi)),
+                                       (obj' :: (prop' :: [])))), a3), p1)
+                                  else let (p3, p4) =
+                                         get_temporal c e span IKExpr a2 p1
+                                       in
+                                       let (id0, a3) = p3 in
+                                       let p5 = ((Node ((K (KComputed, clo,
+                                         chi)),
+                                         ((match id0 with
+                                           | Some i -> i
+                                           | None -> e) :: []))), a3)
+                                       in
+                                       let (prop', a4) = p5 in
+                                       (((Node ((K (KMember, lo, hi)),
+                                       (obj' :: (prop' :: [])))), a4), p4)
+                                | _ :: _ ->
+                                  let p3 = (prop, a2) in
+                                  let (prop', a3) = p3 in
+                                  (((Node ((K (KMember, lo, hi)),
+                                  (obj' :: (prop' :: [])))), a3), p1)))
+                          | _ ->
+                            let p3 = (prop, a2) in
+                            let (prop', a3) = p3 in
+                            (((Node ((K (KMember, lo, hi)),
+                            (obj' :: (prop' :: [])))), a3), p1))
+                       | _ ->
+                         let p3 = (prop, a2) in
+                         let (prop', a3) = p3 in
+                         (((Node ((K (KMember, lo, hi)),
+                         (obj' :: (prop' :: [])))), a3), p1))
+               | _ :: _ -> ((lhs, a), p))))
+      | _ -> ((lhs, a), p))
+   | _ -> ((lhs, a), p))
+
 (** val assign_transform :
     config -> node -> pstate -> node option * pstate **)
 
@@ -7033,20 +7158,30 @@ let assign_transform c e p =
                     if is_pat_target lhs
                     then (None, p)
                     else let span = (lo, hi) in
+                         let (p1, p0) = hoist_target c lhs span acc0 p in
+                         let (lhs', hoisted) = p1 in
                          let right =
                            if is_op bin_op ('+'::[]) rhs
                            then mk_paren (span_of rhs) rhs
                            else rhs
                          in
                          let binary =
-                           mk_bin span ('+'::[]) (simple_target_to_expr lhs)
+                           mk_bin span ('+'::[]) (simple_target_to_expr lhs')
                              right
                          in
-                         let (o, p1) = binary_transform c binary p in
+                         let (o, p2) = binary_transform c binary p0 in
                          (match o with
                           | Some e' ->
-                            ((Some (mk_assign span ('='::[]) lhs e')), p1)
-                          | None -> (None, p1))
+                            let new_assign = mk_assign span ('='::[]) lhs' e'
+                            in
+                            ((Some
+                            (match hoisted.a_assigns with
+                             | [] -> new_assign
+                             | n0 :: l2 ->
+                               mk_paren span
+                                 (mk_seq span
+                                   (app (n0 :: l2) (new_assign :: []))))), p2)
+                          | None -> (None, p2))
                   | _ :: _ -> (None, p)))))
       | _ -> (None, p))
    | _ -> (None, p))
@@ -9037,130 +9172,11 @@ let rec any_node p n0 =
      | c :: l' -> (||) (any_node p c) (go l')
      in go cs)
 
-(** val kind_in : kind list -> node -> bool **)
+(** val static_path : node -> bool **)
 
-let kind_in ks n0 =
-  match kind_of n0 with
-  | Some k -> existsb (kind_eqb k) ks
-  | None -> false
-
-(** val instrumentable_kinds : kind list **)
-
-let instrumentable_kinds =
-  KCall :: (KTpl :: (KBin :: (KAssign :: (KOptChain :: []))))
-
-(** val compound_assign_target : node -> node option **)
-
-let compound_assign_target = function
+let rec static_path = function
 | Node (t, cs) ->
   (match t with
-   | K (k, _, _) ->
-     (match k with
-      | KAssign ->
-        (match cs with
-         | [] -> None
-         | n1 :: l ->
-           let Node (t0, cs0) = n1 in
-           (match t0 with
-            | Str s ->
-              (match s with
-               | [] -> None
-               | a::s0 ->
-                 (* If this appears, you're using Ascii internals. Please don't *)
- (fun f c ->
-  let n = Char.code c in
-  let h i = (n land (1 lsl i)) <> 0 in
-  f (h 0) (h 1) (h 2) (h 3) (h 4) (h 5) (h 6) (h 7))
-                   (fun b b0 b1 b2 b3 b4 b5 b6 ->
-                   if b
-                   then if b0
-                        then if b1
-                             then None
-                             else if b2
-                                  then if b3
-                                       then None
-                                       else if b4
-                                            then if b5
-                                                 then None
-                                                 else if b6
-                                                      then None
-                                                      else (match s0 with
-                                                            | [] -> None
-                                                            | a0::s1 ->
-                                                              (* If this appears, you're using Ascii internals. Please don't *)
- (fun f c ->
-  let n = Char.code c in
-  let h i = (n land (1 lsl i)) <> 0 in
-  f (h 0) (h 1) (h 2) (h 3) (h 4) (h 5) (h 6) (h 7))
-                                                                (fun b7 b8 b9 b10 b11 b12 b13 b14 ->
-                                                                if b7
-                                                                then 
-                                                                  if b8
-                                                                  then None
-                                                                  else 
-                                                                    if b9
-                                                                    then 
-                                                                    if b10
-                                                                    then 
-                                                                    if b11
-                                                                    then 
-                                                                    if b12
-                                                                    then 
-                                                                    if b13
-                                                                    then None
-                                                                    else 
-                                                                    if b14
-                                                                    then None
-                                                                    else 
-                                                                    (match s1 with
-                                                                    | [] ->
-                                                                    (match cs0 with
-                                                                    | [] ->
-                                                                    (match l with
-                                                                    | [] ->
-                                                                    None
-                                                                    | lhs :: l0 ->
-                                                                    (match l0 with
-                                                                    | [] ->
-                                                                    None
-                                                                    | _ :: l1 ->
-                                                                    (match l1 with
-                                                                    | [] ->
-                                                                    Some lhs
-                                                                    | _ :: _ ->
-                                                                    None)))
-                                                                    | _ :: _ ->
-                                                                    None)
-                                                                    | _::_ ->
-                                                                    None)
-                                                                    else None
-                                                                    else None
-                                                                    else None
-                                                                    else None
-                                                                else None)
-                                                                a0)
-                                            else None
-                                  else None
-                        else None
-                   else None)
-                   a)
-            | _ -> None))
-      | _ -> None)
-   | _ -> None)
-
-(** val k_compound_target_instrumentable : node -> bool **)
-
-let k_compound_target_instrumentable prog =
-  any_node (fun n0 ->
-    match compound_assign_target n0 with
-    | Some lhs -> any_node (kind_in instrumentable_kinds) lhs
-    | None -> false) prog
-
-(** val simple_member_target : node -> bool **)
-
-let simple_member_target = function
-| Node (t0, cs) ->
-  (match t0 with
    | K (k, _, _) ->
      (match k with
       | KMember ->
@@ -9169,72 +9185,120 @@ let simple_member_target = function
          | obj :: l ->
            (match l with
             | [] -> false
-            | prop :: l0 ->
-              (match l0 with
-               | [] ->
-                 (&&) ((||) (is_ident obj) (is_kind KThis obj))
-                   (let Node (t1, cs0) = prop in
-                    (match t1 with
-                     | K (k0, _, _) ->
-                       (match k0 with
-                        | KIdentName -> true
-                        | KComputed ->
-                          (match cs0 with
-                           | [] -> false
-                           | e :: l1 ->
-                             (match l1 with
-                              | [] -> (||) (is_lit e) (is_ident e)
-                              | _ :: _ -> false))
-                        | KPrivateName -> true
-                        | _ -> false)
-                     | _ -> false))
-               | _ :: _ -> false)))
-      | KSuperProp ->
+            | n0 :: l0 ->
+              let Node (t0, _) = n0 in
+              (match t0 with
+               | K (k0, _, _) ->
+                 (match k0 with
+                  | KIdentName ->
+                    (match l0 with
+                     | [] -> static_path obj
+                     | _ :: _ -> false)
+                  | _ -> false)
+               | _ -> false)))
+      | KIdent -> true
+      | KThis -> true
+      | _ -> false)
+   | _ -> false)
+
+(** val call_apply_nonstatic : char list list -> node -> bool **)
+
+let call_apply_nonstatic names = function
+| Node (t, cs) ->
+  (match t with
+   | K (k, _, _) ->
+     (match k with
+      | KCall ->
         (match cs with
          | [] -> false
          | _ :: l ->
            (match l with
             | [] -> false
-            | prop :: l0 ->
-              (match l0 with
-               | [] ->
-                 let Node (t1, cs0) = prop in
-                 (match t1 with
-                  | K (k0, _, _) ->
-                    (match k0 with
-                     | KIdentName -> true
-                     | KComputed ->
-                       (match cs0 with
-                        | [] -> false
-                        | e :: l1 ->
-                          (match l1 with
-                           | [] -> (||) (is_lit e) (is_ident e)
-                           | _ :: _ -> false))
-                     | _ -> false)
+            | n1 :: l0 ->
+              let Node (t0, cs0) = n1 in
+              (match t0 with
+               | K (k0, _, _) ->
+                 (match k0 with
+                  | KMember ->
+                    (match cs0 with
+                     | [] -> false
+                     | n2 :: l1 ->
+                       let Node (t1, cs1) = n2 in
+                       (match t1 with
+                        | K (k1, _, _) ->
+                          (match k1 with
+                           | KMember ->
+                             (match cs1 with
+                              | [] -> false
+                              | p :: l2 ->
+                                (match l2 with
+                                 | [] -> false
+                                 | mprop :: l3 ->
+                                   (match l3 with
+                                    | [] ->
+                                      (match l1 with
+                                       | [] -> false
+                                       | cprop :: l4 ->
+                                         (match l4 with
+                                          | [] ->
+                                            (match l0 with
+                                             | [] -> false
+                                             | n3 :: l5 ->
+                                               let Node (t2, cs2) = n3 in
+                                               (match t2 with
+                                                | Lst ->
+                                                  (match cs2 with
+                                                   | [] -> false
+                                                   | _ :: _ ->
+                                                     (match l5 with
+                                                      | [] -> false
+                                                      | _ :: l7 ->
+                                                        (match l7 with
+                                                         | [] ->
+                                                           (match ident_name_sym
+                                                                    cprop with
+                                                            | Some ca ->
+                                                              (match 
+                                                               ident_name_sym
+                                                                 mprop with
+                                                               | Some m ->
+                                                                 (&&)
+                                                                   ((&&)
+                                                                    ((||)
+                                                                    (eqb1 ca
+                                                                    gen_CALL)
+                                                                    (eqb1 ca
+                                                                    gen_APPLY))
+                                                                    (existsb
+                                                                    (eqb1 m)
+                                                                    names))
+                                                                   (negb
+                                                                    (static_path
+                                                                    p))
+                                                               | None -> false)
+                                                            | None -> false)
+                                                         | _ :: _ -> false)))
+                                                | _ -> false))
+                                          | _ :: _ -> false))
+                                    | _ :: _ -> false)))
+                           | _ -> false)
+                        | _ -> false))
                   | _ -> false)
-               | _ :: _ -> false)))
-      | KIdent -> true
+               | _ -> false)))
       | _ -> false)
    | _ -> false)
 
-(** val k_compound_member_target : node -> bool **)
+(** val k_call_apply_nonstatic : char list list -> node -> bool **)
 
-let k_compound_member_target prog =
-  any_node (fun n0 ->
-    match compound_assign_target n0 with
-    | Some lhs -> negb (simple_member_target lhs)
-    | None -> false) prog
+let k_call_apply_nonstatic names prog =
+  any_node (call_apply_nonstatic names) prog
 
 (** val known_classes : char list list -> node -> char list list **)
 
-let known_classes _ prog =
-  app
-    (if k_compound_target_instrumentable prog
-     then ('c'::('o'::('m'::('p'::('o'::('u'::('n'::('d'::('-'::('t'::('a'::('r'::('g'::('e'::('t'::('-'::('i'::('n'::('s'::('t'::('r'::('u'::('m'::('e'::('n'::('t'::('a'::('b'::('l'::('e'::[])))))))))))))))))))))))))))))) :: []
-     else [])
-    (if k_compound_member_target prog
-     then ('c'::('o'::('m'::('p'::('o'::('u'::('n'::('d'::('-'::('m'::('e'::('m'::('b'::('e'::('r'::('-'::('t'::('a'::('r'::('g'::('e'::('t'::[])))))))))))))))))))))) :: []
-     else [])
+let known_classes names prog =
+  if k_call_apply_nonstatic names prog
+  then ('c'::('a'::('l'::('l'::('-'::('a'::('p'::('p'::('l'::('y'::('-'::('n'::('o'::('n'::('s'::('t'::('a'::('t'::('i'::('c'::('-'::('p'::('a'::('t'::('h'::[]))))))))))))))))))))))))) :: []
+  else []
 
 (** val is_directive : node -> bool **)
 
@@ -15008,4 +15072,853 @@ let rec shape_issues vp n0 =
      let rec go = function
      | [] -> []
      | c :: l' -> app (shape_issues vp c) (go l')
+     in go cs)
+
+(** val inert : node -> bool **)
+
+let inert e =
+  (||) ((||) (is_lit e) (is_ident e)) (is_kind KThis e)
+
+(** val static_path0 : node -> bool **)
+
+let rec static_path0 = function
+| Node (t, cs) ->
+  (match t with
+   | K (k, _, _) ->
+     (match k with
+      | KMember ->
+        (match cs with
+         | [] -> false
+         | obj :: l ->
+           (match l with
+            | [] -> false
+            | n0 :: l0 ->
+              let Node (t0, _) = n0 in
+              (match t0 with
+               | K (k0, _, _) ->
+                 (match k0 with
+                  | KIdentName ->
+                    (match l0 with
+                     | [] -> static_path0 obj
+                     | _ :: _ -> false)
+                  | _ -> false)
+               | _ -> false)))
+      | KIdent -> true
+      | KThis -> true
+      | _ -> false)
+   | _ -> false)
+
+(** val arg_exprs : node list -> node list **)
+
+let arg_exprs args =
+  flat_map (fun a ->
+    let Node (t, cs) = a in
+    (match t with
+     | Obj ->
+       (match cs with
+        | [] -> (match arg_expr a with
+                 | Some e -> e :: []
+                 | None -> [])
+        | _ :: l ->
+          (match l with
+           | [] -> (match arg_expr a with
+                    | Some e -> e :: []
+                    | None -> [])
+           | n0 :: l0 ->
+             let Node (t0, cs0) = n0 in
+             (match t0 with
+              | K (k, _, _) ->
+                (match k with
+                 | KArray ->
+                   (match cs0 with
+                    | [] ->
+                      (match arg_expr a with
+                       | Some e -> e :: []
+                       | None -> [])
+                    | n1 :: l1 ->
+                      let Node (t1, elems) = n1 in
+                      (match t1 with
+                       | Lst ->
+                         (match l1 with
+                          | [] ->
+                            (match l0 with
+                             | [] ->
+                               flat_map (fun el ->
+                                 match arg_expr el with
+                                 | Some e -> e :: []
+                                 | None -> []) elems
+                             | _ :: _ ->
+                               (match arg_expr a with
+                                | Some e -> e :: []
+                                | None -> []))
+                          | _ :: _ ->
+                            (match arg_expr a with
+                             | Some e -> e :: []
+                             | None -> []))
+                       | _ ->
+                         (match arg_expr a with
+                          | Some e -> e :: []
+                          | None -> [])))
+                 | _ -> (match arg_expr a with
+                         | Some e -> e :: []
+                         | None -> []))
+              | _ -> (match arg_expr a with
+                      | Some e -> e :: []
+                      | None -> []))))
+     | _ -> (match arg_expr a with
+             | Some e -> e :: []
+             | None -> []))) args
+
+(** val plain_arg_exprs : node list -> node list **)
+
+let plain_arg_exprs args =
+  flat_map (fun a -> match arg_expr a with
+                     | Some e -> e :: []
+                     | None -> []) args
+
+type op_view =
+| OpOperands of node list
+| OpCall of node * node * node list
+| OpBare of node * node list
+| OpUnknown
+
+(** val view_op : node -> op_view **)
+
+let view_op = function
+| Node (t, cs) ->
+  (match t with
+   | K (k, _, _) ->
+     (match k with
+      | KBin ->
+        (match cs with
+         | [] -> OpUnknown
+         | _ :: l0 ->
+           (match l0 with
+            | [] -> OpUnknown
+            | l :: l1 ->
+              (match l1 with
+               | [] -> OpUnknown
+               | r :: l2 ->
+                 (match l2 with
+                  | [] -> OpOperands (l :: (r :: []))
+                  | _ :: _ -> OpUnknown))))
+      | KTpl ->
+        (match cs with
+         | [] -> OpUnknown
+         | n0 :: l ->
+           let Node (t0, es) = n0 in
+           (match t0 with
+            | Lst ->
+              (match l with
+               | [] -> OpUnknown
+               | _ :: l0 ->
+                 (match l0 with
+                  | [] -> OpOperands es
+                  | _ :: _ -> OpUnknown))
+            | _ -> OpUnknown))
+      | KCall ->
+        (match cs with
+         | [] -> OpUnknown
+         | _ :: l ->
+           (match l with
+            | [] -> OpUnknown
+            | f :: l0 ->
+              let Node (t0, cs0) = f in
+              (match t0 with
+               | K (k0, _, _) ->
+                 (match k0 with
+                  | KMember ->
+                    (match cs0 with
+                     | [] ->
+                       (match l0 with
+                        | [] -> OpUnknown
+                        | n0 :: l1 ->
+                          let Node (t1, args) = n0 in
+                          (match t1 with
+                           | Lst ->
+                             (match l1 with
+                              | [] -> OpUnknown
+                              | _ :: l2 ->
+                                (match l2 with
+                                 | [] ->
+                                   if is_ident f
+                                   then OpBare (f, (plain_arg_exprs args))
+                                   else OpUnknown
+                                 | _ :: _ -> OpUnknown))
+                           | _ -> OpUnknown))
+                     | f0 :: l1 ->
+                       (match l1 with
+                        | [] ->
+                          (match l0 with
+                           | [] -> OpUnknown
+                           | n0 :: l2 ->
+                             let Node (t1, args) = n0 in
+                             (match t1 with
+                              | Lst ->
+                                (match l2 with
+                                 | [] -> OpUnknown
+                                 | _ :: l3 ->
+                                   (match l3 with
+                                    | [] ->
+                                      if is_ident f
+                                      then OpBare (f, (plain_arg_exprs args))
+                                      else OpUnknown
+                                    | _ :: _ -> OpUnknown))
+                              | _ -> OpUnknown))
+                        | prop :: l2 ->
+                          (match l2 with
+                           | [] ->
+                             (match l0 with
+                              | [] -> OpUnknown
+                              | n0 :: l3 ->
+                                let Node (t1, args) = n0 in
+                                (match t1 with
+                                 | Lst ->
+                                   (match args with
+                                    | [] ->
+                                      (match l3 with
+                                       | [] -> OpUnknown
+                                       | _ :: l4 ->
+                                         (match l4 with
+                                          | [] ->
+                                            if is_ident f
+                                            then OpBare (f,
+                                                   (plain_arg_exprs args))
+                                            else OpUnknown
+                                          | _ :: _ -> OpUnknown))
+                                    | this :: rest ->
+                                      (match l3 with
+                                       | [] -> OpUnknown
+                                       | _ :: l4 ->
+                                         (match l4 with
+                                          | [] ->
+                                            (match ident_name_sym prop with
+                                             | Some s ->
+                                               (match s with
+                                                | [] -> OpUnknown
+                                                | a::s0 ->
+                                                  (* If this appears, you're using Ascii internals. Please don't *)
+ (fun f c ->
+  let n = Char.code c in
+  let h i = (n land (1 lsl i)) <> 0 in
+  f (h 0) (h 1) (h 2) (h 3) (h 4) (h 5) (h 6) (h 7))
+                                                    (fun b b0 b1 b2 b3 b4 b5 b6 ->
+                                                    if b
+                                                    then if b0
+                                                         then if b1
+                                                              then OpUnknown
+                                                              else if b2
+                                                                   then 
+                                                                    OpUnknown
+                                                                   else 
+                                                                    if b3
+                                                                    then 
+                                                                    OpUnknown
+                                                                    else 
+                                                                    if b4
+                                                                    then 
+                                                                    if b5
+                                                                    then 
+                                                                    if b6
+                                                                    then 
+                                                                    OpUnknown
+                                                                    else 
+                                                                    (match s0 with
+                                                                    | [] ->
+                                                                    OpUnknown
+                                                                    | a0::s1 ->
+                                                                    (* If this appears, you're using Ascii internals. Please don't *)
+ (fun f c ->
+  let n = Char.code c in
+  let h i = (n land (1 lsl i)) <> 0 in
+  f (h 0) (h 1) (h 2) (h 3) (h 4) (h 5) (h 6) (h 7))
+                                                                    (fun b7 b8 b9 b10 b11 b12 b13 b14 ->
+                                                                    if b7
+                                                                    then 
+                                                                    if b8
+                                                                    then 
+                                                                    OpUnknown
+                                                                    else 
+                                                                    if b9
+                                                                    then 
+                                                                    OpUnknown
+                                                                    else 
+                                                                    if b10
+                                                                    then 
+                                                                    OpUnknown
+                                                                    else 
+                                                                    if b11
+                                                                    then 
+                                                                    OpUnknown
+                                                                    else 
+                                                                    if b12
+                                                                    then 
+                                                                    if b13
+                                                                    then 
+                                                                    if b14
+                                                                    then 
+                                                                    OpUnknown
+                                                                    else 
+                                                                    (match s1 with
+                                                                    | [] ->
+                                                                    OpUnknown
+                                                                    | a1::s2 ->
+                                                                    (* If this appears, you're using Ascii internals. Please don't *)
+ (fun f c ->
+  let n = Char.code c in
+  let h i = (n land (1 lsl i)) <> 0 in
+  f (h 0) (h 1) (h 2) (h 3) (h 4) (h 5) (h 6) (h 7))
+                                                                    (fun b15 b16 b17 b18 b19 b20 b21 b22 ->
+                                                                    if b15
+                                                                    then 
+                                                                    OpUnknown
+                                                                    else 
+                                                                    if b16
+                                                                    then 
+                                                                    OpUnknown
+                                                                    else 
+                                                                    if b17
+                                                                    then 
+                                                                    if b18
+                                                                    then 
+                                                                    if b19
+                                                                    then 
+                                                                    OpUnknown
+                                                                    else 
+                                                                    if b20
+                                                                    then 
+                                                                    if b21
+                                                                    then 
+                                                                    if b22
+                                                                    then 
+                                                                    OpUnknown
+                                                                    else 
+                                                                    (match s2 with
+                                                                    | [] ->
+                                                                    OpUnknown
+                                                                    | a2::s3 ->
+                                                                    (* If this appears, you're using Ascii internals. Please don't *)
+ (fun f c ->
+  let n = Char.code c in
+  let h i = (n land (1 lsl i)) <> 0 in
+  f (h 0) (h 1) (h 2) (h 3) (h 4) (h 5) (h 6) (h 7))
+                                                                    (fun b23 b24 b25 b26 b27 b28 b29 b30 ->
+                                                                    if b23
+                                                                    then 
+                                                                    OpUnknown
+                                                                    else 
+                                                                    if b24
+                                                                    then 
+                                                                    OpUnknown
+                                                                    else 
+                                                                    if b25
+                                                                    then 
+                                                                    if b26
+                                                                    then 
+                                                                    if b27
+                                                                    then 
+                                                                    OpUnknown
+                                                                    else 
+                                                                    if b28
+                                                                    then 
+                                                                    if b29
+                                                                    then 
+                                                                    if b30
+                                                                    then 
+                                                                    OpUnknown
+                                                                    else 
+                                                                    (match s3 with
+                                                                    | [] ->
+                                                                    (match 
+                                                                    arg_expr
+                                                                    this with
+                                                                    | Some t2 ->
+                                                                    OpCall
+                                                                    (f0, t2,
+                                                                    (plain_arg_exprs
+                                                                    rest))
+                                                                    | None ->
+                                                                    OpUnknown)
+                                                                    | _::_ ->
+                                                                    OpUnknown)
+                                                                    else 
+                                                                    OpUnknown
+                                                                    else 
+                                                                    OpUnknown
+                                                                    else 
+                                                                    OpUnknown
+                                                                    else 
+                                                                    OpUnknown)
+                                                                    a2)
+                                                                    else 
+                                                                    OpUnknown
+                                                                    else 
+                                                                    OpUnknown
+                                                                    else 
+                                                                    OpUnknown
+                                                                    else 
+                                                                    OpUnknown)
+                                                                    a1)
+                                                                    else 
+                                                                    OpUnknown
+                                                                    else 
+                                                                    OpUnknown
+                                                                    else 
+                                                                    OpUnknown)
+                                                                    a0)
+                                                                    else 
+                                                                    OpUnknown
+                                                                    else 
+                                                                    OpUnknown
+                                                         else if b1
+                                                              then OpUnknown
+                                                              else if b2
+                                                                   then 
+                                                                    OpUnknown
+                                                                   else 
+                                                                    if b3
+                                                                    then 
+                                                                    OpUnknown
+                                                                    else 
+                                                                    if b4
+                                                                    then 
+                                                                    if b5
+                                                                    then 
+                                                                    if b6
+                                                                    then 
+                                                                    OpUnknown
+                                                                    else 
+                                                                    (match s0 with
+                                                                    | [] ->
+                                                                    OpUnknown
+                                                                    | a0::s1 ->
+                                                                    (* If this appears, you're using Ascii internals. Please don't *)
+ (fun f c ->
+  let n = Char.code c in
+  let h i = (n land (1 lsl i)) <> 0 in
+  f (h 0) (h 1) (h 2) (h 3) (h 4) (h 5) (h 6) (h 7))
+                                                                    (fun b7 b8 b9 b10 b11 b12 b13 b14 ->
+                                                                    if b7
+                                                                    then 
+                                                                    OpUnknown
+                                                                    else 
+                                                                    if b8
+                                                                    then 
+                                                                    OpUnknown
+                                                                    else 
+                                                                    if b9
+                                                                    then 
+                                                                    OpUnknown
+                                                                    else 
+                                                                    if b10
+                                                                    then 
+                                                                    OpUnknown
+                                                                    else 
+                                                                    if b11
+                                                                    then 
+                                                                    if b12
+                                                                    then 
+                                                                    if b13
+                                                                    then 
+                                                                    if b14
+                                                                    then 
+                                                                    OpUnknown
+                                                                    else 
+                                                                    (match s1 with
+                                                                    | [] ->
+                                                                    OpUnknown
+                                                                    | a1::s2 ->
+                                                                    (* If this appears, you're using Ascii internals. Please don't *)
+ (fun f c ->
+  let n = Char.code c in
+  let h i = (n land (1 lsl i)) <> 0 in
+  f (h 0) (h 1) (h 2) (h 3) (h 4) (h 5) (h 6) (h 7))
+                                                                    (fun b15 b16 b17 b18 b19 b20 b21 b22 ->
+                                                                    if b15
+                                                                    then 
+                                                                    OpUnknown
+                                                                    else 
+                                                                    if b16
+                                                                    then 
+                                                                    OpUnknown
+                                                                    else 
+                                                                    if b17
+                                                                    then 
+                                                                    OpUnknown
+                                                                    else 
+                                                                    if b18
+                                                                    then 
+                                                                    OpUnknown
+                                                                    else 
+                                                                    if b19
+                                                                    then 
+                                                                    if b20
+                                                                    then 
+                                                                    if b21
+                                                                    then 
+                                                                    if b22
+                                                                    then 
+                                                                    OpUnknown
+                                                                    else 
+                                                                    (match s2 with
+                                                                    | [] ->
+                                                                    OpUnknown
+                                                                    | a2::s3 ->
+                                                                    (* If this appears, you're using Ascii internals. Please don't *)
+ (fun f c ->
+  let n = Char.code c in
+  let h i = (n land (1 lsl i)) <> 0 in
+  f (h 0) (h 1) (h 2) (h 3) (h 4) (h 5) (h 6) (h 7))
+                                                                    (fun b23 b24 b25 b26 b27 b28 b29 b30 ->
+                                                                    if b23
+                                                                    then 
+                                                                    OpUnknown
+                                                                    else 
+                                                                    if b24
+                                                                    then 
+                                                                    OpUnknown
+                                                                    else 
+                                                                    if b25
+                                                                    then 
+                                                                    if b26
+                                                                    then 
+                                                                    if b27
+                                                                    then 
+                                                                    OpUnknown
+                                                                    else 
+                                                                    if b28
+                                                                    then 
+                                                                    if b29
+                                                                    then 
+                                                                    if b30
+                                                                    then 
+                                                                    OpUnknown
+                                                                    else 
+                                                                    (match s3 with
+                                                                    | [] ->
+                                                                    OpUnknown
+                                                                    | a3::s4 ->
+                                                                    (* If this appears, you're using Ascii internals. Please don't *)
+ (fun f c ->
+  let n = Char.code c in
+  let h i = (n land (1 lsl i)) <> 0 in
+  f (h 0) (h 1) (h 2) (h 3) (h 4) (h 5) (h 6) (h 7))
+                                                                    (fun b31 b32 b33 b34 b35 b36 b37 b38 ->
+                                                                    if b31
+                                                                    then 
+                                                                    if b32
+                                                                    then 
+                                                                    OpUnknown
+                                                                    else 
+                                                                    if b33
+                                                                    then 
+                                                                    OpUnknown
+                                                                    else 
+                                                                    if b34
+                                                                    then 
+                                                                    if b35
+                                                                    then 
+                                                                    if b36
+                                                                    then 
+                                                                    if b37
+                                                                    then 
+                                                                    if b38
+                                                                    then 
+                                                                    OpUnknown
+                                                                    else 
+                                                                    (match s4 with
+                                                                    | [] ->
+                                                                    (match 
+                                                                    arg_expr
+                                                                    this with
+                                                                    | Some t2 ->
+                                                                    OpCall
+                                                                    (f0, t2,
+                                                                    (arg_exprs
+                                                                    rest))
+                                                                    | None ->
+                                                                    OpUnknown)
+                                                                    | _::_ ->
+                                                                    OpUnknown)
+                                                                    else 
+                                                                    OpUnknown
+                                                                    else 
+                                                                    OpUnknown
+                                                                    else 
+                                                                    OpUnknown
+                                                                    else 
+                                                                    OpUnknown
+                                                                    else 
+                                                                    OpUnknown)
+                                                                    a3)
+                                                                    else 
+                                                                    OpUnknown
+                                                                    else 
+                                                                    OpUnknown
+                                                                    else 
+                                                                    OpUnknown
+                                                                    else 
+                                                                    OpUnknown)
+                                                                    a2)
+                                                                    else 
+                                                                    OpUnknown
+                                                                    else 
+                                                                    OpUnknown
+                                                                    else 
+                                                                    OpUnknown)
+                                                                    a1)
+                                                                    else 
+                                                                    OpUnknown
+                                                                    else 
+                                                                    OpUnknown
+                                                                    else 
+                                                                    OpUnknown)
+                                                                    a0)
+                                                                    else 
+                                                                    OpUnknown
+                                                                    else 
+                                                                    OpUnknown
+                                                    else OpUnknown)
+                                                    a)
+                                             | None -> OpUnknown)
+                                          | _ :: _ -> OpUnknown)))
+                                 | _ -> OpUnknown))
+                           | _ :: _ ->
+                             (match l0 with
+                              | [] -> OpUnknown
+                              | n1 :: l4 ->
+                                let Node (t1, args) = n1 in
+                                (match t1 with
+                                 | Lst ->
+                                   (match l4 with
+                                    | [] -> OpUnknown
+                                    | _ :: l5 ->
+                                      (match l5 with
+                                       | [] ->
+                                         if is_ident f
+                                         then OpBare (f,
+                                                (plain_arg_exprs args))
+                                         else OpUnknown
+                                       | _ :: _ -> OpUnknown))
+                                 | _ -> OpUnknown)))))
+                  | _ ->
+                    (match l0 with
+                     | [] -> OpUnknown
+                     | n0 :: l1 ->
+                       let Node (t1, args) = n0 in
+                       (match t1 with
+                        | Lst ->
+                          (match l1 with
+                           | [] -> OpUnknown
+                           | _ :: l2 ->
+                             (match l2 with
+                              | [] ->
+                                if is_ident f
+                                then OpBare (f, (plain_arg_exprs args))
+                                else OpUnknown
+                              | _ :: _ -> OpUnknown))
+                        | _ -> OpUnknown)))
+               | _ ->
+                 (match l0 with
+                  | [] -> OpUnknown
+                  | n0 :: l1 ->
+                    let Node (t1, args) = n0 in
+                    (match t1 with
+                     | Lst ->
+                       (match l1 with
+                        | [] -> OpUnknown
+                        | _ :: l2 ->
+                          (match l2 with
+                           | [] ->
+                             if is_ident f
+                             then OpBare (f, (plain_arg_exprs args))
+                             else OpUnknown
+                           | _ :: _ -> OpUnknown))
+                     | _ -> OpUnknown)))))
+      | _ -> OpUnknown)
+   | _ -> OpUnknown)
+
+(** val temps_of : char list -> node list -> char list list **)
+
+let temps_of vp es =
+  flat_map (fun e ->
+    match is_temp_ident vp e with
+    | Some t -> t :: []
+    | None -> []) es
+
+(** val dedup_str : char list list -> char list list -> char list list **)
+
+let rec dedup_str seen = function
+| [] -> []
+| x :: r ->
+  if existsb (eqb1 x) seen
+  then dedup_str seen r
+  else x :: (dedup_str (x :: seen) r)
+
+(** val list_str_eqb : char list list -> char list list -> bool **)
+
+let rec list_str_eqb a b =
+  match a with
+  | [] -> (match b with
+           | [] -> true
+           | _ :: _ -> false)
+  | x :: a' ->
+    (match b with
+     | [] -> false
+     | y :: b' -> (&&) (eqb1 x y) (list_str_eqb a' b'))
+
+(** val kept_before_effect :
+    char list -> (char list * node) list -> node list -> bool **)
+
+let rec kept_before_effect vp asg = function
+| [] -> false
+| e :: rest ->
+  (||)
+    (match is_temp_ident vp e with
+     | Some _ -> false
+     | None ->
+       (&&) (is_ident e)
+         (existsb (fun later ->
+           match is_temp_ident vp later with
+           | Some t ->
+             (match assoc_str t asg with
+              | Some rhs -> negb (inert (clean_rhs rhs))
+              | None -> false)
+           | None -> false) rest)) (kept_before_effect vp asg rest)
+
+(** val seq_order_issues :
+    char list -> (char list * node) list -> node -> char list list **)
+
+let seq_order_issues vp asg op =
+  let assigned = map fst asg in
+  (match view_op op with
+   | OpOperands es ->
+     let expected0 =
+       filter (fun t -> existsb (eqb1 t) assigned)
+         (dedup_str [] (temps_of vp es))
+     in
+     app
+       (if list_str_eqb expected0 assigned
+        then []
+        else ('a'::('s'::('s'::('i'::('g'::('n'::('m'::('e'::('n'::('t'::('s'::('-'::('o'::('u'::('t'::('-'::('o'::('f'::('-'::('o'::('r'::('d'::('e'::('r'::[])))))))))))))))))))))))) :: [])
+       (if kept_before_effect vp asg es
+        then ('k'::('e'::('p'::('t'::('-'::('i'::('d'::('e'::('n'::('t'::('i'::('f'::('i'::('e'::('r'::('-'::('b'::('e'::('f'::('o'::('r'::('e'::('-'::('e'::('f'::('f'::('e'::('c'::('t'::[]))))))))))))))))))))))))))))) :: []
+        else [])
+   | OpCall (f, t, rest) ->
+     let tf = temps_of vp (t :: []) in
+     let ff = temps_of vp (f :: []) in
+     let restt = dedup_str (app tf ff) (temps_of vp rest) in
+     let keep = fun l -> filter (fun x -> existsb (eqb1 x) assigned) l in
+     let e1 = keep (dedup_str [] (app tf (app ff restt))) in
+     let e2 = keep (dedup_str [] (app ff (app tf restt))) in
+     let f_rhs =
+       match is_temp_ident vp f with
+       | Some x -> assoc_str x asg
+       | None -> None
+     in
+     let f_static =
+       match f_rhs with
+       | Some other ->
+         let Node (t0, cs) = other in
+         (match t0 with
+          | K (k, _, _) ->
+            (match k with
+             | KMember ->
+               (match cs with
+                | [] -> static_path0 other
+                | obj :: l ->
+                  (match l with
+                   | [] -> static_path0 other
+                   | _ :: l0 ->
+                     (match l0 with
+                      | [] ->
+                        (match is_temp_ident vp obj with
+                         | Some _ -> true
+                         | None -> static_path0 obj)
+                      | _ :: _ -> static_path0 other)))
+             | _ -> static_path0 other)
+          | _ -> static_path0 other)
+       | None -> true
+     in
+     app
+       (if list_str_eqb e2 assigned
+        then []
+        else if list_str_eqb e1 assigned
+             then if f_static
+                  then []
+                  else ('t'::('h'::('i'::('s'::('-'::('b'::('e'::('f'::('o'::('r'::('e'::('-'::('n'::('o'::('n'::('s'::('t'::('a'::('t'::('i'::('c'::('-'::('p'::('a'::('t'::('h'::[])))))))))))))))))))))))))) :: []
+             else ('a'::('s'::('s'::('i'::('g'::('n'::('m'::('e'::('n'::('t'::('s'::('-'::('o'::('u'::('t'::('-'::('o'::('f'::('-'::('o'::('r'::('d'::('e'::('r'::[])))))))))))))))))))))))) :: [])
+       (if kept_before_effect vp asg (t :: rest)
+        then ('k'::('e'::('p'::('t'::('-'::('i'::('d'::('e'::('n'::('t'::('i'::('f'::('i'::('e'::('r'::('-'::('b'::('e'::('f'::('o'::('r'::('e'::('-'::('e'::('f'::('f'::('e'::('c'::('t'::[]))))))))))))))))))))))))))))) :: []
+        else [])
+   | OpBare (_, rest) ->
+     let expected0 =
+       filter (fun t -> existsb (eqb1 t) assigned)
+         (dedup_str [] (temps_of vp rest))
+     in
+     app
+       (if list_str_eqb expected0 assigned
+        then []
+        else ('a'::('s'::('s'::('i'::('g'::('n'::('m'::('e'::('n'::('t'::('s'::('-'::('o'::('u'::('t'::('-'::('o'::('f'::('-'::('o'::('r'::('d'::('e'::('r'::[])))))))))))))))))))))))) :: [])
+       (if kept_before_effect vp asg rest
+        then ('k'::('e'::('p'::('t'::('-'::('i'::('d'::('e'::('n'::('t'::('i'::('f'::('i'::('e'::('r'::('-'::('b'::('e'::('f'::('o'::('r'::('e'::('-'::('e'::('f'::('f'::('e'::('c'::('t'::[]))))))))))))))))))))))))))))) :: []
+        else [])
+   | OpUnknown -> [])
+
+(** val order_issues : char list -> node -> char list list **)
+
+let rec order_issues vp n0 =
+  app
+    (let Node (t, cs) = n0 in
+     (match t with
+      | K (k, _, _) ->
+        (match k with
+         | KParen ->
+           (match cs with
+            | [] -> []
+            | n1 :: l ->
+              let Node (t0, cs0) = n1 in
+              (match t0 with
+               | K (k0, _, _) ->
+                 (match k0 with
+                  | KSeq ->
+                    (match cs0 with
+                     | [] -> []
+                     | n2 :: l0 ->
+                       let Node (t1, es) = n2 in
+                       (match t1 with
+                        | Lst ->
+                          (match l0 with
+                           | [] ->
+                             (match l with
+                              | [] ->
+                                (match split_injected vp es with
+                                 | Some p ->
+                                   let (asg, last) = p in
+                                   (match asg with
+                                    | [] -> []
+                                    | _ :: _ ->
+                                      (match hook_call last with
+                                       | Some p0 ->
+                                         let (_, l1) = p0 in
+                                         (match l1 with
+                                          | [] -> []
+                                          | a0 :: _ ->
+                                            (match arg_expr a0 with
+                                             | Some op ->
+                                               seq_order_issues vp asg op
+                                             | None -> []))
+                                       | None -> []))
+                                 | None -> [])
+                              | _ :: _ -> [])
+                           | _ :: _ -> [])
+                        | _ -> []))
+                  | _ -> [])
+               | _ -> []))
+         | _ -> [])
+      | _ -> []))
+    (let Node (_, cs) = n0 in
+     let rec go = function
+     | [] -> []
+     | c :: l' -> app (order_issues vp c) (go l')
      in go cs)
